@@ -13,7 +13,7 @@ type C18 struct {
 	st *Stats
 }
 
-func NewC18() *C18          { return &C18{st: NewStats("C18")} }
+func NewC18() *C18           { return &C18{st: NewStats("C18")} }
 func (m *C18) Stats() *Stats { return m.st }
 
 var reNum = regexp.MustCompile(`[0-9]+`)
